@@ -651,7 +651,7 @@ fn exhaustive(out: &mut Vec<String>) {
 }
 
 pub fn gen(tier: &str, rng: &mut Rng, out: &mut Vec<String>) {
-    let n = if tier == "thorough" { 20_000 } else { 600 };
+    let n = if tier == "thorough" { 20_000 } else { 4_000 };
     for i in 0..n {
         out.push(match i % 10 {
             0..=4 => gen_avl(rng, tier),
